@@ -110,7 +110,11 @@ class Scenario:
         self.stats = Counter()
         self.ops = []            # op-kind sequence (shape signature)
         self.sessions = ["S%d" % (i + 1) for i in range(self.profile["sessions"])]
-        self.h2s = {session_hash(s): s for s in self.sessions}
+        # agent identity per session: one tool / model for all by default; distinct ones when the property quantifies over tools (C19)
+        self.tool = {s: ("tool", "m") for s in self.sessions}
+        if self.profile.get("multi_tool"):
+            self.tool = {s: ("tool%d" % (i % 2 + 1), "m%d" % (i + 1)) for i, s in enumerate(self.sessions)}
+        self.h2s = {session_hash(s, tool=self.tool[s][0]): s for s in self.sessions}
         self.styles = {}
         self.files = []
         self.nr = N.NotesReader(self.w)
@@ -391,7 +395,8 @@ class Scenario:
 
     def post_ai(self, session, f, repo=None):
         """Checkpoint an agent sends after it edited f."""
-        self.w.ai_ckpt(session, [f], cwd=repo, messages=self.transcript(session))
+        t = self.tool.get(session, ("tool", "m"))
+        self.w.ai_ckpt(session, [f], cwd=repo, messages=self.transcript(session), tool=t[0], model=t[1])
 
     def transcript(self, session):
         return None
